@@ -31,18 +31,52 @@ def check(run):
         run.ob("C15.R1", "%s:%s" % (pl.fq, k), okx, site, what)
     run.floor("C15.R1", 4)
 
-    # R2 field table
+    # R2 field table.  Local roles are derived from the code, never from their spelling:
+    #   field/value = 1st/3rd target of `<f>, <sep>, <v> = <line>.partition(b':')`;
+    #   id/name/data variables = the values of the ('id'|'name'|'data', <var>) pairs of the dispatched dict;
+    #   parts = the list local joined into the data variable.
+    part = [n for n in walk_local(pe.node) if isinstance(n, ast.Assign) and isinstance(n.targets[0], ast.Tuple) and len(n.targets[0].elts) == 3
+            and isinstance(n.value, ast.Call) and isinstance(n.value.func, ast.Attribute) and n.value.func.attr == "partition"
+            and n.value.args and isinstance(n.value.args[0], ast.Constant) and n.value.args[0].value == b":"]
+    if len(part) != 1:
+        run.inconclusive_at("C15.R2", run.site(pe), "`field, sep, value = line.partition(b':')` idiom not found in parseEvents")
+        return
+    fieldv, sepv, valuev = (dotted(t) for t in part[0].targets[0].elts)
+    app = [n for n in walk_local(pe.node) if isinstance(n, ast.Call) and dotted(n.func.value if isinstance(n.func, ast.Attribute) else None) == "self.events"]
+    keys = {}
+    for n in ast.walk(app[0]) if app else []:
+        if isinstance(n, ast.Tuple) and len(n.elts) == 2 and isinstance(n.elts[0], ast.Constant):
+            keys[n.elts[0].value] = dotted(n.elts[1])
+        if isinstance(n, ast.Dict):
+            for k, v in zip(n.keys, n.values):
+                if isinstance(k, ast.Constant):
+                    keys[k.value] = dotted(v)
+        if isinstance(n, ast.Call) and dotted(n.func) == "dict":
+            for k in n.keywords:
+                keys[k.arg] = dotted(k.value)
+    okk = set(keys) == {"id", "name", "data"} and all(keys.values()) and len(set(keys.values())) == 3
+    run.ob("C15.R2", "%s:event-carries-id-name-data" % pe.fq, okk, run.site(pe), "" if okk else "dispatched event is built from %s" % sorted(keys.items()))
+    idv, namev, datav = keys.get("id"), keys.get("name"), keys.get("data")
+    joined = {dotted(n.value.args[0]) for n in walk_local(pe.node) if isinstance(n, ast.Assign) and dotted(n.targets[0]) == datav
+              and isinstance(n.value, ast.Call) and isinstance(n.value.func, ast.Attribute) and n.value.func.attr == "join"
+              and isinstance(n.value.func.value, ast.Constant) and n.value.func.value.value == "\n" and n.value.args}
+    joined.discard(None)
+    ok = len(joined) == 1
+    run.ob("C15.R2", "%s:data-is-newline-join-of-parts" % pe.fq, ok, run.site(pe),
+           "" if ok else "the dispatched data (`%s`) is not the '\\n'-join of one list of data lines (joined: %s)" % (datav, sorted(joined)))
+    partsv = sorted(joined)[0] if joined else None
     arms = {}
     for n in walk_local(pe.node):
-        if isinstance(n, ast.Compare) and dotted(n.left) == "field" and len(n.ops) == 1 and isinstance(n.ops[0], ast.Eq) \
+        if isinstance(n, ast.Compare) and dotted(n.left) == fieldv and len(n.ops) == 1 and isinstance(n.ops[0], ast.Eq) \
                 and isinstance(n.comparators[0], ast.Constant):
             arms[n.comparators[0].value] = parent(n)
     run.ob("C15.R2", "%s:field-table" % pe.fq, set(arms) == FIELDS, run.site(pe),
            "" if set(arms) == FIELDS else "field dispatch handles %s, the event stream format defines %s" % (sorted(arms), sorted(FIELDS)))
     run.rows += len(arms)
-    effects = {"event": lambda st: isinstance(st, ast.Assign) and dotted(st.targets[0]) == "ename" and dotted(st.value) == "value",
-               "data": lambda st: isinstance(st, ast.Expr) and isinstance(st.value, ast.Call) and method_call(st.value) == ("parts", "append"),
-               "id": lambda st: isinstance(st, ast.Assign) and {dotted(t) for t in st.targets} >= {"self.leid"} and dotted(st.value) == "value",
+    effects = {"event": lambda st: isinstance(st, ast.Assign) and {dotted(t) for t in st.targets} == {namev} and dotted(st.value) == valuev,
+               "data": lambda st: isinstance(st, ast.Expr) and isinstance(st.value, ast.Call) and method_call(st.value) == (partsv, "append")
+               and len(st.value.args) == 1 and dotted(st.value.args[0]) == valuev,
+               "id": lambda st: isinstance(st, ast.Assign) and {dotted(t) for t in st.targets} == {"self.leid", idv} and dotted(st.value) == valuev,
                "retry": lambda st: isinstance(st, ast.Try)}
     for name, node in sorted(arms.items()):
         body = node.body if isinstance(node, ast.If) else []
@@ -62,7 +96,7 @@ def check(run):
     run.ob("C15.R2", "%s:retry-guarded-int" % pe.fq, ok, run.site(pe, rt) if rt else run.site(pe),
            "" if ok else "retry must be converted with int() under `except ValueError` and stored only on success")
     # comments skipped, one leading space stripped
-    comment = any(isinstance(n, ast.If) and isinstance(n.test, ast.UnaryOp) and dotted(n.test.operand) == "field"
+    comment = any(isinstance(n, ast.If) and isinstance(n.test, ast.UnaryOp) and dotted(n.test.operand) == fieldv
                   and any(isinstance(b, ast.Continue) for b in n.body) for n in walk_local(pe.node))
     run.ob("C15.R2", "%s:comment-lines-skipped" % pe.fq, comment, run.site(pe), "" if comment else "lines starting with ':' are not skipped")
     strip = False
@@ -70,27 +104,40 @@ def check(run):
         if isinstance(n, ast.If) and any(isinstance(c, ast.Compare) and isinstance(c.comparators[0], ast.Constant) and c.comparators[0].value == b" "
                                          for c in ast.walk(n.test)):
             dels = [d for d in ast.walk(n) if isinstance(d, ast.Delete)]
-            strip = len(dels) == 1 and unparse(dels[0].targets[0]) in ("value[0]", "value[:1]", "value[0:1]")
+            strip = len(dels) == 1 and unparse(dels[0].targets[0]) in tuple(valuev + x for x in ("[0]", "[:1]", "[0:1]"))
     run.ob("C15.R2", "%s:one-leading-space-stripped" % pe.fq, strip, run.site(pe), "" if strip else "exactly one leading space of the value must be stripped")
     # dispatch on empty line only with data; append right
-    app = [n for n in walk_local(pe.node) if isinstance(n, ast.Call) and dotted(n.func.value if isinstance(n.func, ast.Attribute) else None) == "self.events"]
     ok = len(app) == 1 and app[0].func.attr == "append"
     guard = False
     if app:
         p = parent(app[0])
         while p is not None and p is not pe.node:
-            if isinstance(p, ast.If) and dotted(p.test) == "edata":
+            if isinstance(p, ast.If) and dotted(p.test) == datav:
                 guard = True
             p = parent(p)
     run.ob("C15.R2", "%s:dispatch-appends-right-when-data" % pe.fq, ok and guard, run.site(pe, app[0]) if app else run.site(pe),
            "" if ok and guard else "events must be appended (right end) to self.events only when the data buffer is non-empty")
-    keys = set()
-    for n in ast.walk(app[0]) if app else []:
-        if isinstance(n, ast.Tuple) and len(n.elts) == 2 and isinstance(n.elts[0], ast.Constant):
-            keys.add((n.elts[0].value, dotted(n.elts[1])))
-    okk = keys == {("id", "eid"), ("name", "ename"), ("data", "edata")}
-    run.ob("C15.R2", "%s:event-carries-id-name-data" % pe.fq, okk, run.site(pe), "" if okk else "dispatched event is built from %s" % sorted(keys))
-    run.floor("C15.R2", 10)
+    # per-event buffers are cleared at the end of every block (blank line), dispatched or not: the name, data and data-line
+    # buffers are re-bound to empty values as direct statements of the blank-line block, before its `continue`
+    blank = [n for n in walk_local(pe.node) if isinstance(n, ast.If) and any(c is app[0] for c in ast.walk(n))
+             and any(isinstance(b, ast.Continue) for b in n.body)] if app else []
+    resets = set()
+    if blank:
+        outer = sorted(blank, key=lambda n: n.lineno)[0]
+        for st in outer.body:
+            if isinstance(st, ast.Continue):
+                break
+            if isinstance(st, ast.Assign) and (isinstance(st.value, ast.Constant) and not st.value.value
+                                               or isinstance(st.value, (ast.List, ast.Tuple)) and not st.value.elts):
+                resets |= {dotted(t) for t in st.targets}
+    need = {namev, datav, partsv}
+    ok = bool(blank) and need <= resets
+    run.ob("C15.R2", "%s:buffers-reset-after-every-block" % pe.fq, ok, run.site(pe, blank[0]) if blank else run.site(pe),
+           "" if ok else "after a blank line the event name, data and data-line buffers (%s) must be cleared whether or not an event was dispatched; "
+           "cleared unconditionally: %s" % (sorted(x for x in need if x), sorted(x for x in resets if x)))
+    ok = idv not in resets
+    run.ob("C15.R2", "%s:last-event-id-persists" % pe.fq, ok, run.site(pe), "" if ok else "the last event id buffer is reset between events; it must persist until a new id field")
+    run.floor("C15.R2", 13)
 
     # R3 branch agreement
     pb = ix.func(HC, "Respondent.parseBody")
